@@ -20,6 +20,7 @@ import (
 	"os"
 	"path/filepath"
 	"sort"
+	"os/exec"
 	"strings"
 	"sync"
 	"time"
@@ -129,11 +130,13 @@ func serve(reg func(*grpc.Server)) (string, *grpc.Server) {
 
 func wellFormed(evs []lcm.VerifEvent) string {
 	open := map[uint64]bool{}
+	kind := map[uint64]int{}
 	failed := map[uint64]bool{}
 	lastW := uint64(0)
 	for i, e := range evs {
 		switch e.Result {
 		case 0:
+			kind[e.ID] = int(e.Type)
 			if open[e.ID] {
 				return fmt.Sprintf("event %d: process %d invoked with an outstanding operation", i, e.ID)
 			}
@@ -150,6 +153,9 @@ func wellFormed(evs []lcm.VerifEvent) string {
 		default:
 			if !open[e.ID] {
 				return fmt.Sprintf("event %d: completion without invocation for %d", i, e.ID)
+			}
+			if kind[e.ID] != int(e.Type) {
+				return fmt.Sprintf("event %d: process %d invoked an operation of type %d and its completion (result %d) is recorded with type %d", i, e.ID, kind[e.ID], e.Result, e.Type)
 			}
 			open[e.ID] = false
 			if e.Result == 2 {
@@ -365,8 +371,13 @@ func main() {
 	seed := flag.Int64("seed", hx.Seed(), "PRNG seed")
 	runs := flag.Int("n", 12, "coordinator runs against the fake services")
 	synth := flag.Int("synth", 200, "synthetic event lists for the log round trip")
+	edge := flag.Int("edge", -1, "child mode: check one sequential run of this many operations")
 	out := flag.String("out", "", "output directory")
 	flag.Parse()
+	if *edge >= 0 {
+		edgeChild(*edge)
+		return
+	}
 	if *out == "" {
 		hx.Die("need -out")
 	}
@@ -533,7 +544,69 @@ func main() {
 		judge(evs, parsed, "synthetic", 1000+n, false)
 		run.Nontrivial(fmt.Sprintf("synth%d", n))
 	}
+	// runs of every length are accepted, the empty one included (a run in which nothing was ever scheduled saves an empty
+	// log; the checker sizes its bookkeeping by the number of operations: 0, and the multiples of its word size, are the
+	// edges). The checker works in goroutines of its own, so a crash in it cannot be caught here: the verdict is taken in a
+	// child process.
+	for _, nops := range []int{0, 1, 2, 63, 64, 65, 128, 129} {
+		evs := edgeRun(nops)
+		parsed := roundTrip(c, evs, dir, 5000+nops)
+		judge(evs, parsed, "synthetic", 5000+nops, false)
+		run.Count("case:sequential_run_of_edge_length")
+		outb, err := exec.Command(os.Args[0], "-edge", fmt.Sprint(nops)).CombinedOutput()
+		verdict := ""
+		for _, l := range strings.Split(string(outb), "\n") {
+			if strings.HasPrefix(l, "EDGE-RESULT ") {
+				verdict = strings.TrimPrefix(l, "EDGE-RESULT ")
+			}
+		}
+		if verdict != "accepted" {
+			tail := string(outb)
+			if len(tail) > 400 {
+				tail = tail[:400]
+			}
+			what := fmt.Sprintf("the log of a sequential run of %d operations against a linearizable register was not accepted by the checker (verdict %q, child process: %v): %s", nops, verdict, err, tail)
+			sig := "sequential-run-rejected"
+			if verdict == "" {
+				sig = "checker-crash-on-accepted-run"
+			}
+			run.Violate(hx.Violation{Property: "C07", Clause: "faithful_history_accepted", Signature: sig, Seq: 5000 + nops, What: what, Ops: evs[:minInt(len(evs), 60)]})
+			run.Violate(hx.Violation{Property: "C06", Clause: "verdict_exact_at_the_binary", Signature: sig, Seq: 5000 + nops, What: what, Ops: evs[:minInt(len(evs), 60)]})
+		}
+	}
 	_ = totalEv
+}
+
+// edgeRun: a sequential run of nops operations (write i+1, read it back, ...) by three processes taking turns
+func edgeRun(nops int) []lcm.VerifEvent {
+	evs := []lcm.VerifEvent{}
+	for i := 0; i < nops; i++ {
+		id := uint64(1 + i%3)
+		if i%2 == 0 {
+			evs = append(evs, lcm.VerifEvent{Type: 1, Result: 0, ID: id, Value: uint64(i + 1)}, lcm.VerifEvent{Type: 1, Result: 1, ID: id, Value: uint64(i + 1)})
+		} else {
+			evs = append(evs, lcm.VerifEvent{Type: 0, Result: 0, ID: id, Value: math.MaxUint64}, lcm.VerifEvent{Type: 0, Result: 1, ID: id, Value: uint64(i)})
+		}
+	}
+	return evs
+}
+
+// edgeChild: save, parse and check one edge-length run; a crash of the checker kills this process, not the harness
+func edgeChild(nops int) {
+	dir, _ := os.MkdirTemp("", "lcmedge")
+	defer os.RemoveAll(dir)
+	c := lcm.NewCoordinator(context.Background(), 1, 1, []string{"127.0.0.1:1"})
+	c.VerifSetEvents(edgeRun(nops))
+	fn := filepath.Join(dir, "drummer-lcm.jepsen")
+	c.SaveAsJepsenLog(fn)
+	parsed := porcupine.ParseJepsenLog(fn)
+	if porcupine.CheckEvents(porcupine.GetEtcdModel(), parsed) {
+		fmt.Fprintln(os.Stderr, "EDGE-RESULT accepted")
+	} else {
+		fmt.Fprintln(os.Stderr, "EDGE-RESULT rejected")
+	}
+	os.RemoveAll(dir)
+	os.Exit(0)
 }
 
 func minInt(a, b int) int {
